@@ -16,6 +16,7 @@ type vProvider struct {
 	port      int
 	txt       []string
 	announces int
+	live      bool // announced and not unannounced since
 }
 
 func (p *vProvider) Start(autoReconnect bool, cb api.MdnsResolveCB) bool { return true }
@@ -23,9 +24,10 @@ func (p *vProvider) Shutdown()                                            {}
 func (p *vProvider) Announce(serviceName string, port int, txt []string) error {
 	p.name, p.port, p.txt = serviceName, port, txt
 	p.announces++
+	p.live = true
 	return nil
 }
-func (p *vProvider) Unannounce() {}
+func (p *vProvider) Unannounce() { p.live = false }
 
 // fake report receiver
 type vReport struct {
